@@ -200,3 +200,21 @@ func (r cliRun) String() string {
 	}
 	return sb.String()
 }
+
+func cliRoot() *cobra.Command { return cmd.RootCmd }
+
+// cliTableDump runs every entry of the driver table once (development aid).
+func cliTableDump() {
+	defer cliCleanup()
+	for _, e := range cliTable() {
+		res, r := cliExec(mcrt.Config{}, e.Args, e.Stdin, e.Files, e.Out)
+		out := cliScrub(res.Stdout)
+		if len(out) > 160 {
+			out = out[:160] + "..."
+		}
+		fmt.Printf("%-28s %s err=%q files=%d\n    stdout=%q\n", e.Name, verdictStr(r), cliScrub(res.Err), len(res.Files), out)
+		if crashed(r) || res.Err != "" {
+			fmt.Printf("    stderr=%q\n", cliScrub(res.Stderr))
+		}
+	}
+}
